@@ -27,7 +27,7 @@ CHECKS = {}   # filled in below as checks are built
 CHECKS["C17"] = dict(
  script="checks/c17.py", engine="tool-world", level="fault_enumeration",
  technique="deterministic simulation of the real tool main()s over a simulated file system with single-fault injection enumerated over every I/O step of each scenario's own trace (oserror, torn/short write, crash before/after/torn, emitter assertion, SIGINT at sampled lines)",
- text="Seeded scenarios (yaml-set, yaml-merge, eyaml-rotate-keys; labelled pre-write failure causes and successful edits; --backup on/off; stale .bak variants; output modes) are run through the real entry points in a simulated process world; for each scenario every faultable I/O step of its recorded trace is faulted in turn with every applicable fault kind and clauses A-D of the property are checked on the resulting simulated disk. Evidence over sampled scenarios and enumerated fault points, not a proof.",
+ text="Seeded scenarios (yaml-set, yaml-merge, eyaml-rotate-keys; labelled pre-write failure causes and successful edits; --backup on/off; stale .bak variants; output modes) are run through the real entry points in a simulated process world; for each scenario every faultable I/O step of its recorded trace is faulted in turn with every applicable fault kind (thorough: all; quick: a seeded sample) plus SIGINT at uniformly sampled traced lines and at the lines around every mutating step, and clauses A-D of the property are checked on the resulting simulated disk; session mode strings 3-10 invocations with per-step faults and an operator restore on one disk (clause E). Evidence over sampled scenarios and enumerated fault points, not a proof.",
  note="Trusts the SimFS model of open(O_TRUNC)/unlink/write and of shutil.copy2's step order; single fault per run; no power-loss / page-cache model (the code never fsyncs); no concurrent second process.",
  design="DESIGN.md section 3.5")
 
@@ -43,14 +43,14 @@ for _pid, _title in (("C03", "set"), ("C04", "delete"), ("C09", "query/create"))
      script="checks/edit_session.py", args=" --property " + _pid,
      engine="edit-session", level="exploration",
      technique="seeded operation histories (set/create/delete/query/reopen) against the real Processor, refinement-checked step by step against a plain-data reference model, with persist/reopen cycles through the simulated file system",
-     text="Each session is one evolving document and a seeded history of 1-12 operations whose paths are drawn against the current state in a dozen path forms; after every step the full snapshot (typed data, key and list order, anchors, alias groups) must equal the reference model's prediction for that step (%s oracle), and the document must dump and strictly reload to the same data. Seeded search over histories, not a proof." % _title,
+     text="Each session is one evolving document and a seeded history of 1-12 operations whose paths are drawn against the current state in a dozen path forms; after every step the full snapshot (typed data, key and list order, anchors, alias groups) must equal the reference model's prediction for that step (%s oracle), and the document must dump and strictly reload to the same data; about one session in eight drives the same history through the real yaml-set entry point on the simulated file system (one process per step), one in ten uses YAML merge keys. Seeded search over histories, not a proof." % _title,
      note="Which nodes a path matches is taken from the real read path and located through each result's parent container (C01/C02 are not claimed); documents exclude merge keys and custom tags; there is no scheduler nondeterminism in this engine, the fault dimension is limited to failed operations and the simulated FS of persist/reopen.",
      design="DESIGN.md section 4")
 
 CHECKS["C16"] = dict(
  script="checks/c16.py", engine="tool-world", level="exploration",
  technique="deterministic simulation of the six real tool main()s in a simulated process world, differential against the library called directly, metamorphic over delivery channels (file / explicit - / implicit stdin with seeded chunking / tty), plus single read-fault injection (oserror, legal short read)",
- text="Seeded scenarios for yaml-get, yaml-set, yaml-merge, yaml-diff, yaml-validate and yaml-paths are run through the real entry points (argument parsing, validation, I/O, formatting, exit plumbing) in the simulated world and compared with the library's answer on an independently loaded copy; yaml-diff's exit status is also judged against plain data equality; every scenario is re-delivered over stdin and must give the same outcome; with no input on a terminal the tools must refuse, not read; under one read fault a run may fail but never succeed with a different answer. Seeded search, not a proof.",
+ text="Seeded scenarios for yaml-get, yaml-set, yaml-merge, yaml-diff, yaml-validate and yaml-paths are run through the real entry points (argument parsing, validation, I/O, formatting, exit plumbing) in the simulated world and compared with the library's answer on an independently loaded copy; yaml-diff's exit status is also judged against plain data equality; every scenario is re-delivered over stdin and must give the same outcome; with no input on a terminal the tools must refuse, not read; under one read fault on a delivered document a run may fail but never succeed with a different answer. Scenarios include configuration files, EYAML decryption through the fake peer, multi-document inputs, alias/tag/value-from-file/value-from-stdin edits; the evidence lists how often each operation ran and with which exit. Seeded search, not a proof.",
  note="The library is the reference for what a tool should print (its own correctness is C01-C07); output formatting rules are re-derived in the check from the tools' documented behaviour; -v/-d chatter is not line-matched.",
  design="DESIGN.md section 3.7")
 
